@@ -448,11 +448,10 @@ def _shards(tier):
                 out.append(({"tk": 1, "mf": 2, "nact": 2, "s0": s0, "a0": a0}, 3000))
         out.append(({"tk": 1, "mf": 3, "nact": 1}, 1800))
         out.append(({"tk": 1, "mf": 3, "nact": 0}, 900))
-        # (2) three registered actions (cleanup-registers-cleanup chains, two patches of one attribute, ...) with at most one fault
+        # (2) three registered actions, the second registered by the first one's cleanup, with at most one fault
         for s0 in range(4):
-            for a0 in range(11):
-                for s1 in range(5):
-                    out.append(({"tk": 0, "mf": 1, "nact": 3, "s0": s0, "a0": a0, "s1": s1}, 3000))
+            for a0 in range(5):
+                out.append(({"tk": 0, "mf": 1, "nact": 3, "s0": s0, "a0": a0, "s1": 4}, 3000))
     return out
 
 
@@ -465,7 +464,7 @@ HARNESSES = [
                          "attribute, fixture ok / setUp fails / cleanUp fails / nested); at most 2 faults per "
                          "program; plus fault-free programs with 3 actions in which a cleanup registers a further action while a third one is pending; attribute initially absent, present, present with value None, stored in a __slots__ object, or behind a read-write property; every program is run twice on the same instance",
                 "thorough": "7-behaviour alphabet (+ expected failure, MultipleExceptions) with 0..2 actions of 13 types and fault budget 2 "
-                            "(3 with <= 1 action); 3 actions over the 5-behaviour alphabet with at most 1 fault"},
+                            "(3 with <= 1 action); 3 actions (the first a cleanup of any behaviour, the second registered inside that cleanup) over the 5-behaviour alphabet with at most 1 fault"},
         rule="one program per path; non-trivial = at least one cleanup/patch/fixture registered",
         fidelity=_fid, observe=_observe, describe=_describe,
         twin_fix={"tk": 0, "mf": 2, "nact": 1},
